@@ -63,6 +63,8 @@ pub struct DocSpec {
     pub nested_pages: bool,
     pub tape: Vec<u8>,
     pub user_pw: Vec<u8>,
+    /// damage applied to individual object bodies before layout (offsets stay right)
+    pub body_muts: Vec<(u16, super::mutate::Mutation)>,
 }
 
 pub struct Built {
@@ -461,6 +463,7 @@ pub fn build(spec: &DocSpec) -> Built {
     let crypt = crypt_spec(spec.encrypt, &spec.user_pw, &spec.tape);
     let mut w = Writer::new(b"", if spec.xref_stream { "1.5" } else { "1.4" });
     w.set_tape(&spec.tape);
+    w.body_muts = spec.body_muts.clone();
     let mut trailer: Vec<(Bytes, Val)> = vec![(b("Root"), Val::Ref(cat, 0))];
     if let Some(i) = info_id {
         trailer.push((b("Info"), Val::Ref(i, 0)));
@@ -599,5 +602,6 @@ pub fn spec_strategy() -> impl Strategy<Value = DocSpec> {
             nested_pages,
             tape,
             user_pw,
+            body_muts: Vec::new(),
         })
 }
